@@ -63,6 +63,16 @@ class Prospa:
         v10 = rng.random() < 0.3 and ext[3] == 1
         return {"ext": ext, "dtype": dtype, "v10": v10, "rank": rank}
 
+    def systematic(self, rng):
+        """every rank x sample type x header version once"""
+        out = []
+        for rank in (1, 2, 3, 4):
+            for dtype in (500, 501, 502):
+                for v10 in ((False, True) if rank < 4 else (False,)):
+                    ext = rng.sample([2, 3, 4, 5, 6], rank) + [1] * (4 - rank)
+                    out.append({"ext": ext, "dtype": dtype, "v10": v10, "rank": rank})
+        return out
+
     def layout(self, c):
         x, y, z, q = c["ext"]
         w = 8 if c["dtype"] == 502 else 4
@@ -120,6 +130,9 @@ class VnmrJ:
         nblocks = rng.choice([1, 1, 2, 3, 5])
         npts = 2 * rng.randint(2, 7)
         return {"nblocks": nblocks, "np": npts, "float": rng.random() < 0.5}
+
+    def systematic(self, rng):
+        return [{"nblocks": nb, "np": 2 * rng.randint(2, 7), "float": fl} for nb in (1, 2, 3) for fl in (False, True)]
 
     def layout(self, c):
         return layout_json(32, 28, 0, 8, c["np"] // 2, [c["nblocks"]], [1, 0])
@@ -291,6 +304,9 @@ class TNMR:
         ext = rng.sample([2, 3, 4, 5, 6], rank) + [1] * (4 - rank)
         return {"ext": ext, "trailer": rng.choice([0, 0, 7, 64])}
 
+    def systematic(self, rng):
+        return [{"ext": rng.sample([2, 3, 4, 5, 6], rank) + [1] * (4 - rank), "trailer": tr} for rank in (1, 2, 3, 4) for tr in (0, 7)]
+
     def layout(self, c):
         x, y, z, q = c["ext"]
         return layout_json(20 + 1024 + 8 + 4, 0, 0, 8, x, [q, z, y], [3, 2, 1, 0], trailerOk=True)
@@ -349,6 +365,9 @@ class RS2D:
         ext = rng.sample([2, 3, 4, 5, 6], rank) + [1] * (4 - rank)      # 1D .. 4D
         return {"ext": ext, "rc": rng.choice([1, 1, 2])}
 
+    def systematic(self, rng):
+        return [{"ext": rng.sample([2, 3, 4, 5, 6], rank) + [1] * (4 - rank), "rc": rc} for rank in (1, 2, 3, 4) for rc in (1, 2)]
+
     def layout(self, c):
         d1, d2, d3, d4 = c["ext"]
         # file grid C-order (receiver, 4D, 3D, 2D | 1D); the importer reverses all axes: logical (1D, 2D, 3D, 4D, receiver)
@@ -402,6 +421,10 @@ class BES3T:
         ext = rng.sample([2, 3, 4, 5, 6], rank) + [1] * (3 - rank)
         return {"ext": ext, "rank": rank, "cplx": rng.random() < 0.5, "big": rng.random() < 0.6,
                 "fmt": rng.choice(["D", "D", "D", "F", "I"])}
+
+    def systematic(self, rng):
+        return [{"ext": rng.sample([2, 3, 4, 5, 6], rank) + [1] * (3 - rank), "rank": rank, "cplx": cplx, "big": big, "fmt": fmt}
+                for rank in (1, 2, 3) for cplx in (False, True) for big in (False, True) for fmt in ("D", "F", "I")]
 
     def layout(self, c):
         x, y, z = c["ext"]
@@ -485,6 +508,9 @@ class WinEPR:
         ext = rng.sample([2, 3, 4, 5, 6, 7], rank) + [1] * (2 - rank)
         return {"ext": ext, "rank": rank}
 
+    def systematic(self, rng):
+        return [{"ext": rng.sample([2, 3, 4, 5, 6, 7], rank) + [1] * (2 - rank), "rank": rank} for rank in (1, 2)]
+
     def layout(self, c):
         x, y = c["ext"]
         if c["rank"] == 1:
@@ -546,6 +572,10 @@ class SpecMan:
         rank = rng.randint(1, 4)
         ext = rng.sample([2, 3, 4, 5, 6], rank) + [1] * (4 - rank)
         return {"ext": ext, "rank": rank, "nv": rng.choice([1, 2, 2, 3]), "subdir": rng.choice(["run", "experiments"])}
+
+    def systematic(self, rng):
+        return [{"ext": rng.sample([2, 3, 4, 5, 6], rank) + [1] * (4 - rank), "rank": rank, "nv": nv,
+                 "subdir": ["run", "experiments"][(rank + nv) % 2]} for rank in (1, 2, 3, 4) for nv in (1, 2, 3)]
 
     def layout(self, c):
         s1, s2, s3, s4 = c["ext"]
@@ -629,6 +659,22 @@ class Delta:
             y = 4 * rng.randint(1, 3)
         lo = [rng.choice([0, 1]), 0]; hi = [x - 1 - rng.choice([0, 2]), y - 1 - rng.choice([0, 1])]
         return {"rank": 2, "pts": [x, y], "cplx": True, "lo": lo, "hi": hi, "endian": rng.choice([0, 1])}
+
+    def systematic(self, rng):
+        """1-D real / complex and 2-D, each with the valid window starting at the first stored point and after it,
+        ending at the last stored point and before it"""
+        out = []
+        for cplx in (False, True):
+            for lo in (0, 3):
+                for cut in (0, 2):
+                    n = rng.choice([8, 16, 24])
+                    out.append({"rank": 1, "pts": [n, 1], "cplx": cplx, "lo": [lo, 0], "hi": [n - 1 - cut, 0],
+                                "endian": rng.choice([0, 1])})
+        for lo in ([0, 0], [1, 0], [0, 2], [2, 1]):
+            x, y = 8, 12
+            out.append({"rank": 2, "pts": [x, y], "cplx": True, "lo": lo, "hi": [x - 1 - rng.choice([0, 2]), y - 1 - rng.choice([0, 1])],
+                        "endian": rng.choice([0, 1])})
+        return out
 
     def layout(self, c):
         if c["rank"] == 1:
